@@ -45,9 +45,23 @@ func runC15(c *eng.Ctx) {
 		f := c.Fn(sbT + ".Add")
 		chk := c.One(f, eng.CallTo(sbT+".ensureIncreasingKey"), "ensureIncreasingKey(key)")
 		wr := c.One(f, invokeOn(".writer", "Write"), "writer.Write(value)")
-		aw := c.One(f, eng.CallTo(sbT+".afterWrite"), "afterWrite(key, offset)")
+		// the index update: afterWrite(key, offset), or its body (offset.Add, keys.Add) written in place
+		aw := c.One(f, eng.Any(eng.CallTo(sbT+".afterWrite"), func(p *eng.Prog, in ssa.Instruction) bool {
+			return in.Parent() == f && invokeOn(".keys", "Add")(p, in)
+		}), "afterWrite(key, offset)")
+		awOffset := func() ssa.Value {
+			if a := eng.CallArgs(aw.Instr.(*ssa.Call)); len(a) > 1 {
+				return a[1]
+			}
+			for _, o := range p.SitesDirect(f, invokeOn(".offset", "Add")) {
+				return eng.CallArgs(o.Instr.(*ssa.Call))[0]
+			}
+			return nil
+		}()
 		_, fe := eng.BoolCheckEdges(f, chk.Instr.(ssa.Value))
-		for _, s := range []eng.Site{wr, aw} {
+		guarded := []eng.Site{wr, aw}
+		guarded = append(guarded, p.SitesDirect(f, invokeOn(".offset", "Add"))...)
+		for _, s := range guarded {
 			_, via := eng.PathExists(eng.PathQuery{Fn: f, After: chk.Instr, Target: func(in ssa.Instruction) bool { return in == s.Instr },
 				Edge: func(b *ssa.BasicBlock, su int) bool {
 					for _, e := range fe {
@@ -63,7 +77,7 @@ func runC15(c *eng.Ctx) {
 		okw, why := eng.OkDominates(f, wr.Instr, aw.Instr)
 		c.Check(okw, "index-only-after-successful-write", aw.Instr, f, "the key is indexed only when its value was written", why)
 		sz := c.One(f, invokeOn(".writer", "Size"), "writer.Size()")
-		c.Check(eng.DominatedBy(f, wr.Instr, []eng.Site{sz}, nil) && eng.DependsOn(eng.CallArgs(aw.Instr.(*ssa.Call))[1], func(x ssa.Value) bool { return x == sz.Instr.(ssa.Value) }),
+		c.Check(eng.DominatedBy(f, wr.Instr, []eng.Site{sz}, nil) && awOffset != nil && eng.DependsOn(awOffset, func(x ssa.Value) bool { return x == sz.Instr.(ssa.Value) }),
 			"offset-before-write", aw.Instr, f, "the offset recorded for the key is the file size taken before its value was written", "")
 		c.Check(p.Desc(eng.CallArgs(wr.Instr.(*ssa.Call))[0]) == "value" && p.Desc(eng.CallArgs(aw.Instr.(*ssa.Call))[0]) == "key", "this-key-this-value", aw.Instr, f, "the value written and the key indexed are the arguments", "")
 		// strictness of the order test
@@ -91,6 +105,20 @@ func runC15(c *eng.Ctx) {
 		}
 		for _, s := range c.Some(aw2, eng.StoreField(sbT+".maxKey"), "maxKey = key") {
 			c.Check(p.Desc(s.Instr.(*ssa.Store).Val) == "key", "max-is-last-key", s.Instr, aw2, "maxKey becomes the key just indexed", "")
+		}
+		if calleeName(aw.Instr.(ssa.Value)) != "afterWrite" {
+			// the body written in place in Add: the same updates follow the index update there
+			for _, fld := range []string{"maxKey", "first"} {
+				st := eng.StoreField(sbT + "." + fld)
+				_, skips := eng.PathExists(eng.PathQuery{Fn: f, After: aw.Instr,
+					Target:  func(in ssa.Instruction) bool { r, ok := in.(*ssa.Return); return ok && instrIsSuccessReturn(f, r) },
+					Blocked: func(in ssa.Instruction) bool { return st(p, in) }})
+				c.Check(!skips, "Add-updates:"+fld, aw.Instr, f, "indexing a key updates "+fld+" (the next order test sees it)", "a path from the index update to a successful return does not store "+fld)
+			}
+			for _, s := range p.SitesDirect(f, eng.StoreField(sbT+".maxKey")) {
+				c.Check(p.Desc(s.Instr.(*ssa.Store).Val) == "key", "max-is-last-key@Add", s.Instr, f, "maxKey becomes the key just indexed", "")
+			}
+			c.Check(len(p.SitesDirect(f, invokeOn(".keys", "Add"))) == 1 && len(p.SitesDirect(f, invokeOn(".offset", "Add"))) == 1, "key-and-offset-recorded-together@Add", nil, f, "one key and one offset are recorded per indexed entry (counts stay equal)", "")
 		}
 		c.Check(len(p.Sites(aw2, invokeOn(".keys", "Add"))) == 1 && len(p.Sites(aw2, invokeOn(".offset", "Add"))) == 1, "key-and-offset-recorded-together", nil, aw2, "one key and one offset are recorded per indexed entry (counts stay equal)", "")
 		owner(c, "call of storeBuilder.afterWrite", eng.AnyCallTo(sbT+".afterWrite"), []string{sbT + ".Add", swT + ".Commit"}, 2)
